@@ -3,6 +3,7 @@ package mon
 import (
 	"bufio"
 	"fmt"
+	"math/big"
 	"os"
 	"path/filepath"
 	"sort"
@@ -481,8 +482,8 @@ func c19() *core.Check {
 	schemes := []string{"javascript:", "vbscript:", "data:", "view-source:"}
 	return &core.Check{
 		ID: "C19",
-		Rule: "(recall) for every scheme in {javascript:, vbscript:, data:, view-source:}: per-byte encodings in {literal, &#D;, &#D, &#0000D;, &#xH;, &#XH, &#x00H;} exhaustively for data: and the java prefix (8^5, 8^4) and sampled for the longer schemes, x leading junk (bytes <= 0x20, >= 0x7f, entity-encoded white space) x NUL/LF between scheme letters (also runs of 1-200 ignorable characters at every position, and leading junk runs up to 1000) x case masks; oracle: the URL predicate is true, and IsXSS(<a ATTR=quote(value)>) is true for every live URL attribute (also upper-/mixed-case and with NUL runs of 1-97 bytes inside the name) x 4 quotings. " +
-			"(decoder) every string over {& # x X ; 0 1 9 a f F g NUL 0xff} up to length 6 (thorough 7) plus boundary values around 0x1000FF in decimal and hex with 0-8 leading zeros and every tail, and all 256 byte values in every position of a reference: (value, consumed) must equal the decoder specification, 1 <= consumed <= |s|. Non-trivial = decoder inputs starting with '&#' and all recall cases; distinct by input.",
+		Rule: "(recall) for every scheme in {javascript:, vbscript:, data:, view-source:}: per-byte encodings in {literal, &#D;, &#D, &#0000D;, &#xH;, &#XH, &#x00H;} exhaustively for data: and the java prefix (8^5, 8^4) and sampled for the longer schemes, x leading junk (bytes <= 0x20, >= 0x7f, entity-encoded white space) x NUL/LF between scheme letters (also runs of 1-65537 ignorable characters / bytes at every position and as leading junk, with every length in 1020-1025, 4095-4097 and 65535-65537) x case masks; oracle: the URL predicate is true, and IsXSS(<a ATTR=quote(value)>) is true for every live URL attribute (also upper-/mixed-case and with NUL runs of 1-97 bytes inside the name) x 4 quotings. " +
+			"(decoder) every string over {& # x X ; 0 1 9 a f F g NUL 0xff} up to length 6 (thorough 7) plus boundary values around 0x1000FF in decimal and hex with 0-8 leading zeros and every tail, values that are small again modulo 2^31 ... 2^128 (wrap-around), and all 256 byte values in every position of a reference: (value, consumed) must equal the decoder specification, 1 <= consumed <= |s|. Non-trivial = decoder inputs starting with '&#' and all recall cases; distinct by input.",
 		Plan: func(tier string, seed uint64) []core.Unit {
 			L := 6
 			rnd := uint64(300000)
@@ -496,7 +497,7 @@ func c19() *core.Check {
 			}
 			us = append(us, core.Unit{Gen: "boundary", Lo: 0, Hi: 1})
 			us = append(us, gen.RangeUnits("decbytes", 256, 16, "")...)
-			us = append(us, core.Unit{Gen: "enc-run", Lo: 0, Hi: 1})
+			us = append(us, gen.RangeUnits("enc-run", 64, 1, "")...)
 			us = append(us, gen.RangeUnits("enc-data", gen.Pow(8, 5), 4096, "")...)
 			us = append(us, gen.RangeUnits("enc-java", gen.Pow(8, 4), 4096, "")...)
 			us = append(us, gen.RangeUnits("enc-rand", rnd, 20000, "")...)
@@ -522,6 +523,21 @@ func c19() *core.Check {
 						}
 					}
 				}
+				// values that are small again modulo 2^31 / 2^32 / 2^63 / 2^64 / 2^128:
+				// an accumulator that is only range-checked at the end wraps around
+				for _, sh := range []uint{31, 32, 63, 64, 65, 72, 128} {
+					for _, mul := range []int64{1, 2, 3, 10, 255} {
+						for _, t := range []int64{0, 10, 0x3A, 0x41, 0x4A, 0x6A, 0x74, 0xFF, 0x1000FF} {
+							v := new(big.Int).Lsh(big.NewInt(mul), sh)
+							v.Add(v, big.NewInt(t))
+							for _, tail := range []string{";", "", "avascript:", "z"} {
+								emit(core.Case{In: "&#" + v.Text(10) + tail, Kind: "dec"})
+								emit(core.Case{In: "&#x" + v.Text(16) + tail, Kind: "dec"})
+								emit(core.Case{In: "&#X" + strings.ToUpper(v.Text(16)) + tail, Kind: "dec"})
+							}
+						}
+					}
+				}
 				for _, s := range []string{"&#99999999999999999999999999;", "&#xfffffffffffffffffffffffff;", "&#" + strings.Repeat("9", 400), "&#x" + strings.Repeat("f", 400), "&#" + strings.Repeat("0", 5000) + "65;"} {
 					emit(core.Case{In: s, Kind: "dec"})
 				}
@@ -535,18 +551,37 @@ func c19() *core.Check {
 				}
 			case "enc-run":
 				// runs of ignorable characters inside the scheme and long leading junk
+				// unit index = scheme*16 + position inside the scheme (position 0: leading junk)
 				runs := []string{"\x00", "\n", "&#0;", "&#10;", "&#x0A;", "&#x00;", "\x00\n", "&#010;"}
-				for _, sc := range schemes {
-					for p := 1; p < len(sc); p++ {
-						for _, rn := range runs {
-							for _, k := range []int{1, 2, 8, 28, 29, 33, 64, 200} {
-								emit(core.Case{In: sc[:p] + strings.Repeat(rn, k) + sc[p:] + "x", Kind: "url", A: int64(p*7 + k)})
+				lens := []int{1, 2, 8, 28, 29, 33, 64, 200, 255, 256, 257, 1020, 1021, 1022, 1023, 1024, 1025, 2048, 4095, 4096, 4097, 65535, 65536, 65537}
+				for i := u.Lo; i < u.Hi; i++ {
+					si, p := int(i/16), int(i%16)
+					if si >= len(schemes) {
+						continue
+					}
+					sc := schemes[si]
+					if p == 0 {
+						for _, j := range []string{" ", "\t", "\x01", "\x7f", "\x80", "&#32;", "&#x9;", "&#10;", "\xc2\xa0", "&#0;"} {
+							for _, k := range append([]int{7, 31, 32, 100, 1000}, lens...) {
+								emit(core.Case{In: strings.Repeat(j, k) + sc + "x", Kind: "url", A: int64(k)})
 							}
 						}
+						continue
 					}
-					for _, j := range []string{" ", "\t", "\x01", "\x7f", "\x80", "&#32;", "&#x9;", "&#10;", "\xc2\xa0", "&#0;"} {
-						for _, k := range []int{1, 7, 31, 32, 33, 100, 1000} {
-							emit(core.Case{In: strings.Repeat(j, k) + sc + "x", Kind: "url", A: int64(k)})
+					if p >= len(sc) {
+						continue
+					}
+					for _, rn := range runs {
+						for _, k := range lens {
+							// run lengths are in bytes of input for the long ones
+							n := k
+							if k > 300 {
+								n = k / len(rn)
+							}
+							emit(core.Case{In: sc[:p] + strings.Repeat(rn, n) + sc[p:] + "x", Kind: "url", A: int64(p*7 + k)})
+							if k > 300 && len(rn) > 1 {
+								emit(core.Case{In: sc[:p] + strings.Repeat(rn, k) + sc[p:] + "x", Kind: "url", A: int64(p*7 + k)})
+							}
 						}
 					}
 				}
@@ -563,7 +598,7 @@ func c19() *core.Check {
 						x /= 8
 					}
 					for _, lf := range []bool{true, false} {
-						v := encodeScheme(scheme, enc, 0, i*0x9e3779b97f4a7c15, lf) + "x"
+						v := encodeScheme(scheme, enc, 0, i*0x9e3779b97f4a7c15, lf, 0) + "x"
 						emit(core.Case{In: v, Kind: "url", A: int64(i % 97)})
 					}
 				}
@@ -579,7 +614,16 @@ func c19() *core.Check {
 					if r.Intn(4) == 0 {
 						junk += g04Junk[r.Intn(len(g04Junk))]
 					}
-					v := junk + encodeScheme(sc, r.U64(), inter, r.U64(), true) + []string{"x", "alert(1)", "", "//a", "text/html,x"}[r.Intn(5)]
+					runLen := 0
+					if r.Intn(24) == 0 {
+						// one run of NUL / LF inside the scheme, or the leading junk, at a threshold length
+						if r.Intn(2) == 0 {
+							runLen = g04StretchLens[r.Intn(len(g04StretchLens))]
+						} else {
+							junk = stretchTo(junk, g04StretchLens[r.Intn(len(g04StretchLens))])
+						}
+					}
+					v := junk + encodeScheme(sc, r.U64(), inter, r.U64(), true, runLen) + []string{"x", "alert(1)", "", "//a", "text/html,x"}[r.Intn(5)]
 					emit(core.Case{In: v, Kind: "url", A: int64(r.Intn(1 << 20))})
 				}
 			}
